@@ -500,6 +500,29 @@ def run_program(ctx, case):
     Uc = circ.to_unitary()
     ctx.close(Uc, U, 1e-10, 'to_unitary = ordered product of embedded operators')
     ctx.close(Uc.conj().T @ Uc, np.eye(2 ** n), 1e-10, 'to_unitary is unitary')
+    # a gate handle re-parametrised through set_args must act with the NEW parameters (no stale matrix)
+    import copy
+    delta = 0.37
+    seen = set()
+    for g, _ in circ.gate_index_list:
+        if isinstance(g, nq.sim.ParameterGate) and id(g) not in seen and getattr(g, 'kind', '') != 'custom' and not isinstance(g.args, nq.sim._internal._ParameterHolder):
+            seen.add(id(g))
+            g.set_args(tuple(float(x) + delta for x in g.args))
+    if seen:
+        def bump(ops):
+            for o in ops:
+                if o['op'] == 'sub':
+                    bump(o['ops'])
+                elif 'args' in o:
+                    o['args'] = [x + delta for x in o['args']]
+        case2 = copy.deepcopy({k: v for k, v in case.items()})
+        bump(case2['ops'])
+        circ2, resolved2, n2, sig2, Pvals2 = build(case2)
+        U2 = ref_unitary(resolved2, n)
+        ctx.close(circ.to_unitary(), U2, 1e-10, 'after set_args(new) every parametrised gate acts with the new parameters')
+        ctx.close(circ.apply_state(psi.copy()), U2 @ psi, 1e-10, 'after set_args(new): apply_state')
+        U = U2
+        ctx.label('set_args')
     d = case['shift']
     if d and 'custom-forward' not in sig and n + d <= 7:
         circ.shift_qubit_index_(d)
